@@ -90,12 +90,30 @@ class RunResult(object):
 
 def execute(prog, faults, extractor=None, fail_save=False, rate=None, enabled=True, kind='memory', ignore_forced=False,
             skipped=False, copy=None, rng_seed=5, scripted_draws=None, recorder=None, spy=None, box=None, with_twin=True, built=None,
-            cls_name=None, caller_context='plain'):
+            cls_name=None, caller_context='plain', verbose=False):
     """Runs the decorated program under ``faults`` (and its twin). The caller closes res.box_cm if it is not None."""
     from playback.tape_recorder import TapeRecorder
     res = RunResult()
     res.prog, res.faults = prog, faults
     p = dict(prog)
+    import contextlib
+    stack = contextlib.ExitStack()
+    if verbose:
+        # the host runs with DEBUG logging, and neither the service object nor some of its values can be printed by anybody but the
+        # service (their __repr__ raises for the framework and for the logging module)
+        from vlib import env
+        from vlib.programs import unprintable_values
+        p['unprintable_self'] = True
+        stack.enter_context(env.debug_logging())
+        stack.enter_context(unprintable_values(0.4))
+    with stack:
+        return _execute(res, prog, p, faults, extractor, fail_save, rate, enabled, kind, ignore_forced, skipped, copy, rng_seed, scripted_draws,
+                        recorder, spy, box, with_twin, built, cls_name, caller_context)
+
+
+def _execute(res, prog, p, faults, extractor, fail_save, rate, enabled, kind, ignore_forced, skipped, copy, rng_seed, scripted_draws,
+             recorder, spy, box, with_twin, built, cls_name, caller_context):
+    from playback.tape_recorder import TapeRecorder
     params = dict(prog.get('params') or {})
     if rate is not None:
         params['rate'] = rate
